@@ -141,6 +141,7 @@ def pbox_pairs(chk, tier):
     ops += [("add", "i"), ("mul", "i"), ("sub", "i"), ("div", "i")]
     ops += [("num", k) for k in ("add", "rsub", "mul", "rdiv", "div")] + [("unary", k) for k in ("exp", "log", "sqrt", "neg", "recip")]
     ops += [("env", None), ("imp", None), ("stack", None), ("nested", None)]
+    ops += [("env", "near"), ("imp", "near")]      # second operand within 3e-6 (relative) of the WIDER first operand, but not equal to it
     reps = 1 if tier == "quick" else 12
     # every run: each arithmetic operation under each dependency on each pairing of definite / straddling signs
     # (the sign routing of products and quotients has one branch per pairing)
@@ -167,6 +168,12 @@ def pbox_pairs(chk, tier):
             if kind == "num" and arg == "rdiv":
                 X = pbx.gen_bounds(rng, 200, rng.choice(["pos", "neg"]), dy=False)
             X2 = widen_pbox(rng, *X)
+            if arg == "near":
+                eps = [3e-6 * abs(v) + 3e-9 for v in X2[0]]
+                if kind == "env":       # slightly wider than X2 on both sides
+                    Y = ([v - e for v, e in zip(X2[0], eps)], [v + (3e-6 * abs(v) + 3e-9) for v in X2[1]])
+                else:                   # slightly narrower than X2 where it has room, so that the meet with X exists
+                    Y = ([min(v + e, w) for v, e, w in zip(X2[0], eps, X[0])], [max(v - (3e-6 * abs(v) + 3e-9), w) for v, w in zip(X2[1], X[1])])
             if kind == "unary" and arg in ("log", "sqrt", "recip") or (kind == "num" and arg == "rdiv"):
                 # keep the widened operand inside the domain
                 if X2[0][0] <= 0 <= X2[1][-1] or (arg in ("log", "sqrt") and X2[0][0] <= 0):
